@@ -17,7 +17,14 @@ class Failure(Exception):
         return d
 
 
-def fasta_bytes(names, seqs, width=0):
+def fasta_bytes(names, seqs, width=0, layout=None):
+    """layout: dict(width, eol, final_eol, lead_blank) - how the same records are laid out in the file"""
+    if layout:
+        eol = layout.get("eol", "\n")
+        text = formats.write_fasta(names, seqs, width=layout.get("width", width), eol=eol, lead_blank=layout.get("lead_blank", 0))
+        if not layout.get("final_eol", True) and text.endswith(eol) and seqs and seqs[-1]:
+            text = text[:-len(eol)]
+        return text.encode("latin-1")
     return formats.write_fasta(names, seqs, width=width).encode("latin-1")
 
 
@@ -159,10 +166,10 @@ class Rejected(Exception):
         self.info = info or {}
 
 
-def align_named(names, seqs, cfg, variant="asan", env=None, hook=None, delays=None, codes=False, width=0):
+def align_named(names, seqs, cfg, variant="asan", env=None, hook=None, delays=None, codes=False, width=0, layout=None):
     """One FASTA file -> read+run+dump. Returns dict(names, rows, biotype, alnlen, run)."""
     wd = runner.workdir()
-    fp = wd.write(fasta_bytes(names, seqs, width=width), ".fa")
+    fp = wd.write(fasta_bytes(names, seqs, width=width, layout=layout), ".fa")
     r = run_files([fp], cfg, variant=variant, env=env, hook=hook, delays=delays, codes=codes)
     if r["read_rcs"] != [0] or r["run_rc"] != 0 or r["msa"] is None:
         raise Rejected("read/run failed", {"read": r["read_rcs"], "run": r["run_rc"]})
